@@ -91,9 +91,9 @@ CHECKS = {
     technique="TLC model checking (MC_Storage) + replay of all model sequences on the real Storage + TLC trace validation (StorageTrace.tla)",
     design="5 C19"),
  "C07": dict(
-    text="Disasm.tla gives the header comment, the one-line-per-instruction rule and the token structure of every line (optional '%id =', 'Op'+name, result type, one token per operand: ids as %n, enumerants and every mask kind by name joined with '|', 'None' for the empty mask, decimals); DisasmTrace checks them on real disassemblies of random loadable modules (any mix of opcodes), of every opcode once and every enumerant / mask bit once, of OpConstant/OpSpecConstant over every int/float width with boundary patterns (plus undeclared / bool types), of OpExtInst with known/unknown sets and numbers and of strings with quotes, backslashes, newlines and non-ASCII. The text is read back by an independent reader that knows only the vocabulary, and TLC checks the result equals the instruction stream (NaN payloads excepted), which also gives injectivity.",
+    text="MC_Disasm model-checks that the line format is injective on a bounded universe over 720 opcodes of the pinned grammar and that the vocabulary is unambiguous. Disasm.tla gives the header comment (version, registered generator tool names, bound), the one-line-per-instruction rule and the token structure of every line (optional '%id =', 'Op'+name, result type, one token per operand: ids as %n, enumerants and every mask kind by name joined with '|', 'None' for the empty mask, decimals); DisasmTrace checks them on real disassemblies of random loadable modules (any mix of opcodes), of every opcode once and every enumerant / mask bit once, of OpConstant/OpSpecConstant over every int/float width with boundary patterns (plus undeclared / bool types), of OpExtInst with known/unknown sets and numbers and of strings with quotes, backslashes, newlines and non-ASCII. The text is read back by an independent reader that knows only the vocabulary, and TLC checks the result equals the instruction stream (NaN payloads excepted), which also gives injectivity.",
     note="Tokens TLC cannot spell (large decimals, floats, escaped strings, extended-instruction names) are wildcards in the forward check and decided through the reader. Mask bit names are pinned in spec/DisasmNames.json and cross-checked against the constant names.",
-    technique="TLC trace validation (DisasmTrace.tla: token structure per Disasm.tla + read-back equality) of real disassemblies",
+    technique="TLC model checking (MC_Disasm: injectivity of the line format, unambiguous vocabulary) + TLC trace validation (DisasmTrace.tla: token structure per Disasm.tla + read-back equality) of real disassemblies",
     design="5 C07"),
  "C20": dict(
     text="DisCli.tla models the tool as read -> load -> print with exit 0 as the only terminal state (TLC checks it); rspirv-dis is built from the current tree and run on a corpus (empty file, every byte prefix of a valid module and of a module with 64-bit constants and a 64-bit OpSwitch, OpConstant of undeclared / bool type, OpSpecConstantOp embedding sampled opcode numbers, every sequence of <= 4 structural instructions, OpExtInst with boundary numbers of known and unknown sets, loadable random modules, single-fault mutants, random bytes); DisCliTrace checks exit status 0, no signal, no panic message, stdout = the library's own result on the same bytes + newline, error messages are one line.",
